@@ -90,6 +90,10 @@ def vp_reduce_refs(rule: ViralPropagationRule, refs: List[str]) -> str:
     """Fold vp_pair_sql across an ordered list of column refs (>=1)."""
     if not refs:
         raise ValueError("vp_reduce_refs requires at least one column ref")
+    if rule.aggregate_function == "avg" and len(refs) > 2:
+        # The pairwise form is not associative: ((a + b) / 2 + c) / 2 is not the average of
+        # a, b, c and changes with the operand order. Average all combined values at once.
+        return f"(({' + '.join(refs)}) / {len(refs)}.0)"
     acc = refs[0]
     for ref in refs[1:]:
         acc = vp_pair_sql(rule, acc, ref)
